@@ -364,6 +364,8 @@ def _multi_material_branch(ctx):
     """The StaticMultiMaterialObject branch of the placement loop, interpreted on a two-cell object: each of the four
     arrays is moved, by the mask fraction, towards the value of the voxel's own material taken from the table of that
     array's own kind (inverse for eps / mu, grid-scaled for the conductivities); cells outside the object keep theirs."""
+    import itertools
+
     ix = ctx.index
     f = ix.function(f"{INIT}._init_arrays")
     ctx.unit(f.where())
@@ -373,12 +375,12 @@ def _multi_material_branch(ctx):
     body = branches[0].body
     mi = ix.modules[INIT]
     names = ("m0", "m1", "m2")
-    tab = {k: {nm: Rat.atom((k, nm)) for nm in names} for k in _KINDS}
+    tab = {k: {nm: [Rat.atom((k, nm, c)) for c in range(3)] for nm in names} for k in _KINDS}
 
-    def table(kind):
+    def table(kind, ncomp):
         def h(it_, a, k):
-            # three rows in the common order m0, m1, m2; one (isotropic) column
-            return [(tab[kind][nm],) for nm in names]
+            # three rows in the common order m0, m1, m2; one (isotropic) or three (diagonal) columns
+            return [tuple(tab[kind][nm][:ncomp]) for nm in names]
         return h
 
     def sps(mode):
@@ -389,14 +391,14 @@ def _multi_material_branch(ctx):
 
     bad = []
     n = 0
-    for magnetic, se_on, sm_on in ((True, True, True), (False, True, False), (True, False, True), (False, False, False)):
+    for ncomp, (magnetic, se_on, sm_on) in itertools.product((1, 3), ((True, True, True), (False, True, False), (True, False, True), (False, False, False))):
         it = ctx.fresh_interp()
-        stubs = {f"compute_allowed_{k}": table(k) for k in _KINDS}
+        stubs = {f"compute_allowed_{k}": table(k, ncomp) for k in _KINDS}
         stubs.update({"sharding_preserving_set": sps("set"), "sharding_preserving_add": sps("add"), "_invert_property": lambda it_, a, k: a[0].map(lambda v: 1 / to_rat(v)) if isinstance(a[0], NdArr) else 1 / to_rat(a[0])})
         stub_repo_calls(it, stubs)
         shape = (3, 1, 1)  # the volume; the object covers cells 1..2 along x
         gsl = (slice(1, 3), slice(0, 1), slice(0, 1))
-        mk = lambda nm: NdArr((1,) + shape, [Rat.atom((nm, i)) for i in range(3)])
+        mk = lambda nm: NdArr((ncomp,) + shape, [Rat.atom((nm, c, i)) for c in range(ncomp) for i in range(3)])
         idx = NdArr((2, 1, 1), [2, 0])
         mask = NdArr((2, 1, 1), [Rat.atom("f0"), Rat.atom("f1")])
         o = Obj(None, dict(name="ball", materials={"m2": "M2", "m0": "M0", "m1": "M1"}, grid_slice=gsl, subpixel_smoothing=False, get_material_mapping=Builtin("get_material_mapping", lambda it_, a, k: idx), get_voxel_mask_for_shape=Builtin("get_voxel_mask_for_shape", lambda it_, a, k: mask)), "ball")
@@ -407,7 +409,7 @@ def _multi_material_branch(ctx):
             conductivity_spacing=Rat.atom("h"), num_dispersive_poles=0,
         )
         for k in ("permittivity", "permeability", "electric_conductivity", "magnetic_conductivity"):
-            vars_[f"isotropic_{k}"] = True
+            vars_[f"isotropic_{k}"] = ncomp == 1
             vars_[f"diagonally_anisotropic_{k}"] = True
         env = absint.Env(parent=it.module_env(mi), vars=dict(vars_))
         try:
@@ -422,25 +424,25 @@ def _multi_material_branch(ctx):
                 if isinstance(got, NdArr):
                     bad.append((var, "allocated by the branch", got.shape))
                 continue
-            if not (isinstance(got, NdArr) and got.shape == (1,) + shape):
+            if not (isinstance(got, NdArr) and got.shape == (ncomp,) + shape):
                 bad.append((var, "shape", getattr(got, "shape", got)))
                 continue
-            for cell in range(3):
-                old = Rat.atom((tag, cell))
+            for comp, cell in itertools.product(range(ncomp), range(3)):
+                old = Rat.atom((tag, comp, cell))
                 if cell == 0:
                     want = old
                 else:
                     frac = Rat.atom(f"f{cell - 1}")
-                    own = tab[kind][names[(2, 0)[cell - 1]]]
+                    own = tab[kind][names[(2, 0)[cell - 1]]][comp]
                     if inv:
                         want = 1 / (1 / old + frac * (own - 1 / old))
                     else:
                         want = old + frac * (own * Rat.atom("h") - old)
-                g = to_rat(got.data[cell])
+                g = to_rat(got.data[comp * 3 + cell])
                 if not g.equals(want):
-                    bad.append(((magnetic, se_on, sm_on), var, f"cell {cell}", g.fmt()[:160], want.fmt()[:160]))
-    ctx.ob("R28.9", "_init_arrays:multi-material-branch", not bad, f"inside a shaped object's slice each array moves by the voxel's mask fraction towards the value of the voxel's own material (index into the common order) from the allowed-value table of that array's own kind — 1/eps, 1/mu, sigma_e*h, sigma_m*h — and the cell outside the slice is untouched ({n} array scopes over magnetic / lossy combinations)", bad[:3], "own-kind table, own material")
-    ctx.require_count("R28.9 array scopes", n, 16)
+                    bad.append(((ncomp, magnetic, se_on, sm_on), var, f"component {comp} cell {cell}", g.fmt()[:160], want.fmt()[:160]))
+    ctx.ob("R28.9", "_init_arrays:multi-material-branch", not bad, f"inside a shaped object's slice each array moves by the voxel's mask fraction towards the value of the voxel's own material (index into the common order) from the allowed-value table of that array's own kind — 1/eps, 1/mu, sigma_e*h, sigma_m*h — and the cell outside the slice is untouched ({n} array scopes over magnetic / lossy combinations, isotropic and diagonal tiers — component c of the array from column c of the table)", bad[:3], "own-kind table, own material")
+    ctx.require_count("R28.9 array scopes", n, 32)
 
 
 def _job(ctx, payload):
@@ -460,4 +462,4 @@ def run(ctx):
         raise AnalysisError(err)
     ctx.require_count("C28", len(ctx.obligations), 50)
     ctx.trusted_base += ["sa/ndarr.py indicator algebra for .at[region].set on symbolic regions", "prefix slicing of _init_arrays at the end of its placement loop", "models of create_named_sharded_matrix (zeros) and sharding_preserving_set (.at[].set)"]
-    ctx.assume("whole-scene painting with uniform-material objects; the multi-material branch on a two-cell object, isotropic tier (multi-material voxel masks are C43's subject); no dispersion, no sub-pixel smoothing")
+    ctx.assume("whole-scene painting with uniform-material objects; the multi-material branch on a two-cell object, isotropic and diagonal tiers (multi-material voxel masks are C43's subject); no dispersion, no sub-pixel smoothing")
